@@ -18,14 +18,19 @@ Local Open Scope N_scope.
 
 
 def cases_v(cs):
-    rows = ["(%d, %s)" % (c["id"], c["coq"]) for c in cs]
+    rows = ["(%d, %s)" % (c["id"], c["coq"]) for c in cs if not c.get("scoq")]
+    srows = ["(%d, %s)" % (c["id"], c["scoq"]) for c in cs if c.get("scoq")]
     return HEAD + """Definition cases : list (N * case) := [
 %s
 ].
+Definition scases : list (N * scase) := [
+%s
+].
 Definition bad := Eval vm_compute in
-  flat_map (fun c => match check_case (snd c) with O => [] | k => [(fst c, k)] end) cases.
+  flat_map (fun c => match check_case (snd c) with O => [] | k => [(fst c, k)] end) cases
+  ++ flat_map (fun c => match check_scoped (snd c) with O => [] | k => [(fst c, k)] end) scases.
 Print bad.
-""" % ";\n".join(rows)
+""" % (";\n".join(rows), ";\n".join(srows))
 
 
 def class_v(rows):
@@ -44,7 +49,7 @@ def pairs(term):
 
 
 def spec_of(c):
-    return {k: c[k] for k in ("kind", "style", "prim", "fb", "cancel") if k in c and c[k] is not None}
+    return {k: c[k] for k in ("kind", "style", "prim", "fb", "cancel", "scoped") if k in c and c[k] is not None}
 
 
 def describe(c):
@@ -53,6 +58,10 @@ def describe(c):
     s = "%s primaries=%s fallbacks=%s" % (c["style"], g(c["prim"]), g(c["fb"]))
     if c.get("cancel"):
         s += " cancel@%d%s" % (c["cancel"]["at"], "(deadline)" if c["cancel"]["deadline"] else "")
+    if c.get("scoped"):
+        sc = c["scoped"]
+        s += " [lazy clients; %sclients existing at scoping: primaries %s fallbacks %s; called through ClientForAddress(%r)]" % (
+            "after an earlier %s call (%s); " % (sc["warm"], c.get("warm_res")) if sc.get("warm") else "", c.get("obs_init_p") or [], c.get("obs_init_f") or [], sc["addr"])
     s += " -> observed %s at %s, primaries %s, fallbacks %s" % (c["res"], c["time"], c["sp"], c["sf"])
     if any(c["bodies"]):
         s += ", request bodies read by the nodes %s" % c["bodies"]
@@ -63,6 +72,8 @@ def key_of(c):
     """Stable key of a monitor violation, by the clause of the property that is broken."""
     if any(b.startswith("bad:") for b in c["bodies"]):
         return "proxy-body-not-delivered"
+    if c.get("scoped") and c["scoped"]["addr"] in ("", "unknown"):
+        return "unscoped-client-lost-nodes"
     succ = [n for n in c["prim"] if n["out"] == "ok"]
     if succ and not c.get("cancel"):
         if not c["res"].startswith("(ROk (P"):
@@ -94,7 +105,13 @@ def main():
 
     env = {}
     replay = os.environ.get("VERIF_REPLAY")
-    rc, out, od = vp.go_harness("multi", env_extra=env, timeout=1200)
+    # the lazy wrapper's constructor is unexported: one add-only file is overlaid into app/eth2wrap (build tag verif)
+    os.makedirs(os.path.join(vp.WORK, "multi"), exist_ok=True)
+    ovp = os.path.join(vp.WORK, "multi", "overlay_%s.json" % vp.digest(vp.REPO))
+    with open(ovp, "w") as f:
+        json.dump({"Replace": {os.path.join(vp.REPO, "app/eth2wrap/zz_verif_export.go"):
+                               os.path.join(vp.HARNESS, "overlay/app_eth2wrap/zz_verif_export.go")}}, f)
+    rc, out, od = vp.go_harness("multi", env_extra=env, timeout=1200, extra_args="-overlay " + ovp)
     if rc != 0:
         R.broke("correspondence:harness multi failed to run", out[-3000:])
         R.finish()
@@ -111,6 +128,7 @@ def main():
                           "<= 2 primaries x <= 1 fallback at quick (full product, 3 styles); <= 3 x <= 2 at thorough: full product for Plain and Submit, for Pred the fallback group is fully enumerated whenever no primary succeeds or hangs and reduced to 4 groups otherwise), "
                           "wide (9 and 12 nodes in a group, a success behind 8 or 11 hung / slow nodes: more nodes than forkjoin's default worker count), cancel (a cancellation or deadline in every gap of the run's timeline, and an already cancelled context), random (up to 6 primaries, 4 fallbacks), ties (equal latencies); "
                           "deaf (node calls that ignore cancellation and return after an hour: next to a quick success, in the fallback round, next to an ordinary in-flight call when the caller cancels or its deadline passes; every 2-primary vector with every choice of context-ignoring nodes x cancellation gaps), "
+                          "scoped (multi clients over lazy wrappers, as NewMultiHTTP builds them, called through ClientForAddress with \"\", every configured address and an unknown one; every combination of created / not yet created clients, fresh and after an earlier call; the label is evaluated as a call of the client the model's scope rule yields, nodes outside it must stay uncalled), "
                           "styles: Plain = SlotsPerEpoch, Pred = NodeSyncing (success predicate), Submit = SubmitAttestations, Proxy = multi.Proxy with a POST body (each node reads the body it is handed, in completion order; a node that does not get the caller's body answers 400); "
                           "non-trivial = at least 2 primaries and the result is a fallback's answer, a node's error, or a primary's answer although another primary failed or hangs; distinct by the whole label")
     R.coverage["input_distribution"] = {
@@ -122,6 +140,8 @@ def main():
         "primaries": dict(collections.Counter(len(c["prim"]) for c in cs)),
         "fallbacks": dict(collections.Counter(len(c["fb"]) for c in cs)),
         "with_cancellation": sum(1 for c in cs if c.get("cancel")),
+        "scoped_by_address": dict(collections.Counter((c["scoped"]["addr"] or '""')[:1] for c in cs if c.get("scoped"))),
+        "scoped_warm": sum(1 for c in cs if c.get("scoped") and c["scoped"].get("warm")),
         "with_context_ignoring_node": sum(1 for c in cs if any(n.get("deaf") for n in c["prim"] + c["fb"])),
         "proxy_bodies_read": sum(1 for c in cs for b in c["bodies"] if b),
         "fallbacks_called": sum(1 for c in cs if any(s != "NotCalled" for s in c["sf"])),
